@@ -295,6 +295,23 @@ func genC10(r *Rand, tier string) *Case {
 	if !ok {
 		c, _ = c10Case(L, 'Q', int64(eff)+1, 0, false, cuts)
 	}
+	if r.Chance(1, 5) && eff >= 64 {
+		// a pass-through auth strategy hands the harness the connection's reader:
+		// its window is watched for blocks larger than the limit
+		c.Server.Auth = "passthrough"
+	}
+	if st := c.Conns[0].Steps; c.Variant != "truncated" && r.Chance(1, 4) {
+		// the client takes its time before the last message: whatever the skipping
+		// armed or left behind must not outlive it
+		last := &st[len(st)-1]
+		if n := len(last.Msgs); n > 1 {
+			tail := last.Msgs[n-1]
+			last.Msgs = last.Msgs[:n-1]
+			c.Conns[0].Steps = append(st, Step{Msgs: []pgwire.FMsg{tail}, IdleMs: r.PickInt(2500, 31000, 3600000)})
+		} else {
+			last.IdleMs = r.PickInt(2500, 31000, 3600000)
+		}
+	}
 	return c
 }
 
@@ -337,6 +354,21 @@ func checkC10(x *Exec, c *Case) ([]Violation, bool) {
 		for _, e := range cs.Events {
 			if (e.K == "parse" || e.K == "stmt") && strings.Contains(e.S, "INJECTED") {
 				add("skipped-body-executed", "skipped body executed", fmt.Sprintf("conn %d: bytes of an oversized (skipped) message body were interpreted as protocol messages: callback %q", i, e.K+" "+e.S))
+			}
+		}
+		// the read window never holds more than the limit (or the 4 KiB granule)
+		// at once: an oversized body is skipped in pieces, not buffered
+		if cs.reader != nil {
+			cs.checkRetained("end of connection")
+			bound := eff
+			if bound < 4096 {
+				bound = 4096
+			}
+			for _, cp := range cs.CapSeen {
+				if cp > bound {
+					add("skipped-body-buffered", "skipped body buffered", fmt.Sprintf("conn %d: the connection's read window grew to %d bytes with limit %d (an oversized body was read into one block instead of being skipped in pieces of at most the limit)", i, cp, eff))
+					break
+				}
 			}
 		}
 		// allocation bound per step
